@@ -706,6 +706,24 @@ func runC20(c *Ctx) {
 		emit(nil, &qGroup{ops: []qOp{{path: dk("Equal", "a", "b", "c", "d")}, {path: dk("Equal", "b", "c")}, {path: dk("Equal", "c")}, {path: dk("Equal", "d")}}}, "named/one-name-at-two-depths")
 		emit(nil, &qGroup{ops: []qOp{{path: &qPath{root: '$', parts: []qPart{{kind: 'k', name: "a"}, {kind: 'k', name: "b"}, {kind: 'f', group: &qGroup{ops: []qOp{{path: &qPath{root: '@', parts: []qPart{{kind: 'k', name: "c"}, {kind: 'c', name: "Equal", args: []qArg{{lit: "1"}}}}}}}}}, {kind: 'c', name: "Any"}}}}, {path: dk("Equal", "b")}}}, "named/one-name-at-two-depths")
 	}
+	// one condition text twice: as the condition of a filter (where `@` is an element and reads no root field) and as a member of a
+	// top-level or nested group (where `@` is the root and does) - in both orders
+	{
+		cond := func(k string) *qPath {
+			return &qPath{root: '@', parts: []qPart{{kind: 'k', name: k}, {kind: 'c', name: "Equal", args: []qArg{{lit: "1"}}}}}
+		}
+		bare := func(k string) *qPath { return &qPath{root: '@', parts: []qPart{{kind: 'k', name: k}}} }
+		filtered := func(list string, c *qPath, fn string) *qPath {
+			return &qPath{root: '$', parts: []qPart{{kind: 'k', name: list}, {kind: 'f', group: &qGroup{ops: []qOp{{path: c}}}}, {kind: 'c', name: fn}}}
+		}
+		for _, k := range []string{"a", "c", "ab"} {
+			emit(nil, &qGroup{mode: "OR", ops: []qOp{{path: filtered("b", cond(k), "Any")}, {path: cond(k)}}}, "named/one-condition-in-a-filter-and-at-the-top")
+			emit(nil, &qGroup{mode: "OR", ops: []qOp{{path: cond(k)}, {path: filtered("b", cond(k), "Any")}}}, "named/one-condition-in-a-filter-and-at-the-top")
+			emit(nil, &qGroup{mode: "AND", ops: []qOp{{path: filtered("e", cond(k), "Any")}, {group: &qGroup{mode: "OR", ops: []qOp{{path: cond(k)}, {path: cond("d")}}}}}}, "named/one-condition-in-a-filter-and-at-the-top")
+			emit(nil, &qGroup{mode: "AND", ops: []qOp{{path: filtered("b", bare(k), "Any")}, {path: bare(k)}}}, "named/one-condition-in-a-filter-and-at-the-top")
+			emit(&qPath{root: '$', parts: []qPart{{kind: 'k', name: "b"}, {kind: 'f', group: &qGroup{ops: []qOp{{path: cond(k)}}}}, {kind: 'c', name: "Count"}, {kind: 'c', name: "Equal", args: []qArg{{path: &qPath{root: '@', parts: []qPart{{kind: 'k', name: k}}}}}}}}, nil, "named/one-condition-in-a-filter-and-at-the-top")
+		}
+	}
 	// `@` paths as ARGUMENTS at the top level (the value the function is applied to is not a collection being filtered): their chains stand
 	// on their own
 	{
